@@ -866,12 +866,20 @@ func (dht *FullRT) getValues(ctx context.Context, key string) (<-chan RecvdVal, 
 	logger.Debugw("finding value", "key", internal.LoggableRecordKeyString(key))
 
 	if rec, err := dht.getLocal(ctx, key); rec != nil && err == nil {
-		select {
-		case valCh <- RecvdVal{
-			Val:  rec.GetValue(),
-			From: dht.h.ID(),
-		}:
-		case <-ctx.Done():
+		// The value store only age-checks records on read; run the validator so
+		// that a locally stored record that has since expired by the validator's
+		// rules (e.g. IPNS EOL) is not emitted as if valid, like records received
+		// from the network below.
+		if err := dht.Validator.Validate(key, rec.GetValue()); err != nil {
+			logger.Debugw("local record verify failed", "key", internal.LoggableRecordKeyString(key), "error", err)
+		} else {
+			select {
+			case valCh <- RecvdVal{
+				Val:  rec.GetValue(),
+				From: dht.h.ID(),
+			}:
+			case <-ctx.Done():
+			}
 		}
 	}
 	peers, err := dht.GetClosestPeers(ctx, key)
